@@ -245,7 +245,7 @@ pub fn gen_cases(seed: u64, n: usize, max_len: i32, max_depth: usize, start_id: 
                 let o = body[i]["o"].as_str().unwrap();
                 if ["br", "br_if", "br_table"].contains(&o) && modes_at(&body, i).contains(&"semantic_after") && plan.len() < 5 {
                     let p = plan.len() as u64;
-                    let api = ["iter", "mod", "iter_at", "mod_at"][rng.gen_range(0..4)];
+                    let api = ["iter", "mod", "iter_at", "mod_at", "comp", "comp_at"][rng.gen_range(0..6)];
                     plan.push(json!({"p":p,"site":i,"mode":"semantic_after","api":api,"code":[{"o":"probe","p":p}],"acc":true}));
                 }
             }
@@ -301,7 +301,7 @@ pub fn gen_cases(seed: u64, n: usize, max_len: i32, max_depth: usize, start_id: 
             if let Some(r) = reg {
                 regions.push(r);
             }
-            let apis: &[&str] = if mode.starts_with("empty") { &["iter", "mod"] } else { &["iter", "mod", "iter_at", "mod_at"] };
+            let apis: &[&str] = if mode.starts_with("empty") { &["iter", "mod", "comp"] } else { &["iter", "mod", "iter_at", "mod_at", "comp", "comp_at"] };
             let api = apis[rng.gen_range(0..apis.len())];
             let code = if mode.starts_with("empty") {
                 json!([])
